@@ -1202,6 +1202,7 @@ pub fn uninstall_picker() {
 pub static DELAY_MODE: AtomicU64 = AtomicU64::new(0); // 0 none, 1 random, 100+s targeted site s
 pub static DELAY_SEED: AtomicU64 = AtomicU64::new(1);
 pub static DELAY_CALLS: AtomicU64 = AtomicU64::new(0);
+pub static TIME_SITES: std::sync::atomic::AtomicBool = std::sync::atomic::AtomicBool::new(false);
 
 fn delay_fn(site: u32) {
     thread_local! { static RNG: std::cell::Cell<u64> = const { std::cell::Cell::new(0) }; }
@@ -1220,6 +1221,24 @@ fn delay_fn(site: u32) {
         c.set(x.0);
         v
     });
+    // sites of the simulation-time updates (T1, T2, Q1): only for the sub-checks that
+    // race other threads against time steps (C08 race, C15 readers)
+    if site >= 18 {
+        if !TIME_SITES.load(Ordering::Relaxed) {
+            return;
+        }
+        if mode < 100 {
+            match (site, r % 100) {
+                (18, 0..=39) => spin_us(2 + (r >> 8) % 40), // before the final jump of step_until
+                (18, 40..=49) => std::thread::yield_now(),
+                (19, 0..=14) => spin_us(1 + (r >> 8) % 10), // between the two field stores
+                (20, 0..=7) => spin_us(1 + (r >> 8) % 5),   // after a time read through a scheduler
+                (20, 8..=11) => std::thread::yield_now(),
+                _ => {}
+            }
+            return;
+        }
+    }
     if mode >= 1000 {
         // demonstration mode: always hold the targeted site for a while
         if site as u64 == mode - 1000 {
